@@ -225,10 +225,35 @@ func xkbCaseJSON(c xkbCase) map[string]interface{} {
 	return in
 }
 
-func xkbReadCases(t *testing.T, path string) []xkbCase { return xkbReadCasesFrom(t, path, 0, -1) }
+// xkbDecodeCase decodes one line of a cases file; ok is false for a case of the other package's harness.
+func xkbDecodeCase(line []byte) (c xkbCase, ok bool, err error) {
+	if line[0] == '"' { // TLC's CSVWrite of ToJson(..) yields a JSON string literal containing JSON
+		var s string
+		if err := json.Unmarshal(line, &s); err != nil {
+			return c, false, fmt.Errorf("bad case line: %v", err)
+		}
+		line = []byte(s)
+	}
+	var raw struct {
+		Comp string          `json:"comp"`
+		Leg  string          `json:"leg"`
+		Runs int             `json:"runs"`
+		In   json.RawMessage `json:"in"`
+	}
+	if err := json.Unmarshal(line, &raw); err != nil {
+		return c, false, fmt.Errorf("bad case %s: %v", line, err)
+	}
+	if !xkbMine(raw.Comp) {
+		return c, false, nil
+	}
+	c = xkbCase{Comp: raw.Comp, Leg: raw.Leg, Runs: raw.Runs}
+	if err := json.Unmarshal(raw.In, &c.In); err != nil {
+		return c, false, fmt.Errorf("bad case %s: %v", line, err)
+	}
+	return c, true, nil
+}
 
-// xkbReadCasesFrom decodes the cases lo..hi-1 of the file (hi < 0: to the end); the others are left empty.
-func xkbReadCasesFrom(t *testing.T, path string, lo, hi int) []xkbCase {
+func xkbReadCases(t *testing.T, path string) []xkbCase {
 	f, err := os.Open(path)
 	if err != nil {
 		t.Fatal(err)
@@ -242,34 +267,13 @@ func xkbReadCasesFrom(t *testing.T, path string, lo, hi int) []xkbCase {
 		if len(line) == 0 {
 			continue
 		}
-		if n := len(cases); n < lo || (hi >= 0 && n >= hi) {
-			cases = append(cases, xkbCase{})
-			continue
+		c, ok, err := xkbDecodeCase(line)
+		if err != nil {
+			t.Fatal(err)
 		}
-		if line[0] == '"' { // TLC's CSVWrite of ToJson(..) yields a JSON string literal containing JSON
-			var s string
-			if err := json.Unmarshal(line, &s); err != nil {
-				t.Fatalf("bad case line: %v", err)
-			}
-			line = []byte(s)
+		if ok {
+			cases = append(cases, c)
 		}
-		var raw struct {
-			Comp string          `json:"comp"`
-			Leg  string          `json:"leg"`
-			Runs int             `json:"runs"`
-			In   json.RawMessage `json:"in"`
-		}
-		if err := json.Unmarshal(line, &raw); err != nil {
-			t.Fatalf("bad case %s: %v", line, err)
-		}
-		if !xkbMine(raw.Comp) { // a case of the other package's harness
-			continue
-		}
-		c := xkbCase{Comp: raw.Comp, Leg: raw.Leg, Runs: raw.Runs}
-		if err := json.Unmarshal(raw.In, &c.In); err != nil {
-			t.Fatalf("bad case %s: %v", line, err)
-		}
-		cases = append(cases, c)
 	}
 	return cases
 }
@@ -734,7 +738,18 @@ func TestVerifXkbChild(t *testing.T) {
 	xkbHome, _ = os.Getwd()
 	from, _ := strconv.Atoi(os.Getenv("XKB_CHILD_FROM"))
 	to, _ := strconv.Atoi(os.Getenv("XKB_CHILD_TO"))
-	cases := xkbReadCasesFrom(t, inp, from, to)
+	offset, _ := strconv.ParseInt(os.Getenv("XKB_CHILD_OFFSET"), 10, 64)
+	// the parent wrote one case per line and tells us where case `from` starts: cases are decoded as they are reached
+	cf, err := os.Open(inp)
+	if err != nil {
+		t.Fatal(err)
+	}
+	defer cf.Close()
+	if _, err := cf.Seek(offset, 0); err != nil {
+		t.Fatal(err)
+	}
+	csc := bufio.NewScanner(cf)
+	csc.Buffer(make([]byte, 1<<20), 1<<26)
 	runs, _ := strconv.Atoi(os.Getenv("XKB_CHILD_RUNS"))
 	pass, _ := strconv.Atoi(os.Getenv("XKB_CHILD_PASS"))
 	work := os.Getenv("VERIF_WORK")
@@ -745,10 +760,14 @@ func TestVerifXkbChild(t *testing.T) {
 	defer outf.Close()
 	enc := json.NewEncoder(outf)
 	restore := xkbGlobals()
-	for i := from; i < to && i < len(cases); i++ {
+	for i := from; i < to && csc.Scan(); i++ {
+		cs, ok, err := xkbDecodeCase(csc.Bytes())
+		if err != nil || !ok {
+			t.Fatalf("harness: bad case %d: %v", i, err)
+		}
 		n := runs
-		if pass == 0 && cases[i].Runs > 0 {
-			n = cases[i].Runs
+		if pass == 0 && cs.Runs > 0 {
+			n = cs.Runs
 		}
 		for r := 0; r < n; r++ {
 			dir := xkbRunDir(work, pass, i, r)
@@ -756,7 +775,7 @@ func TestVerifXkbChild(t *testing.T) {
 			if err := os.MkdirAll(dir, 0755); err != nil {
 				t.Fatal(err)
 			}
-			if err := xkbSetup(cases[i], dir); err != nil {
+			if err := xkbSetup(cs, dir); err != nil {
 				t.Fatal(err)
 			}
 			lf, err := os.Create(filepath.Join(dir, "log.txt"))
@@ -774,14 +793,14 @@ func TestVerifXkbChild(t *testing.T) {
 						out["msg"] = fmt.Sprint(p)
 					}
 				}()
-				xkbCall(cases[i], dir, st, out)
+				xkbCall(cs, dir, st, out)
 				out["res"] = "ok"
 			}()
 			log.SetOutput(os.Stderr)
 			lf.Close()
 			os.Chdir(xkbHome)
 			restore()
-			xkbObserve(cases[i], dir, st, out)
+			xkbObserve(cs, dir, st, out)
 			enc.Encode(xkbRec{I: i, R: r, Out: out})
 			os.RemoveAll(dir)
 		}
@@ -792,7 +811,7 @@ func TestVerifXkbChild(t *testing.T) {
 
 // xkbPass runs every case `runs` times.  The cases are cut into XKB_PAR slices, each handled by a chain of child
 // processes: a child that ends inside the code under test is replaced by a fresh one that continues with the next case.
-func xkbPass(t *testing.T, work string, casesPath string, cases []xkbCase, pass, runs int) [][]map[string]interface{} {
+func xkbPass(t *testing.T, work string, casesPath string, offsets []int64, cases []xkbCase, pass, runs int) [][]map[string]interface{} {
 	res := make([][]map[string]interface{}, len(cases))
 	par := xkbEnvInt("XKB_PAR", 4)
 	if par > len(cases) {
@@ -805,7 +824,7 @@ func xkbPass(t *testing.T, work string, casesPath string, cases []xkbCase, pass,
 	for w := 0; w < par; w++ {
 		lo, hi := len(cases)*w/par, len(cases)*(w+1)/par
 		go func(w, lo, hi int) {
-			errs <- xkbChain(work, casesPath, cases, res, pass, runs, w, lo, hi)
+			errs <- xkbChain(work, casesPath, offsets, cases, res, pass, runs, w, lo, hi)
 		}(w, lo, hi)
 	}
 	for w := 0; w < par; w++ {
@@ -816,7 +835,7 @@ func xkbPass(t *testing.T, work string, casesPath string, cases []xkbCase, pass,
 	return res
 }
 
-func xkbChain(work string, casesPath string, cases []xkbCase, res [][]map[string]interface{}, pass, runs, w, lo, hi int) error {
+func xkbChain(work string, casesPath string, offsets []int64, cases []xkbCase, res [][]map[string]interface{}, pass, runs, w, lo, hi int) error {
 	outp := filepath.Join(work, fmt.Sprintf("xkb-%s-child%d_%d.out", xkbTag, pass, w))
 	os.Remove(outp)
 	defer os.Remove(outp)
@@ -826,7 +845,7 @@ func xkbChain(work string, casesPath string, cases []xkbCase, res [][]map[string
 		cmd := exec.Command(os.Args[0], "-test.run", "^TestVerifXkbChild$", "-test.timeout", "1200s")
 		cmd.Dir = xkbHome
 		cmd.Env = append(os.Environ(), "XKB_CHILD_IN="+casesPath, "XKB_CHILD_OUT="+outp, "XKB_CHILD_FROM="+strconv.Itoa(from),
-			"XKB_CHILD_TO="+strconv.Itoa(hi), "XKB_CHILD_RUNS="+strconv.Itoa(runs), "XKB_CHILD_PASS="+strconv.Itoa(pass))
+			"XKB_CHILD_TO="+strconv.Itoa(hi), "XKB_CHILD_OFFSET="+strconv.FormatInt(offsets[from], 10), "XKB_CHILD_RUNS="+strconv.Itoa(runs), "XKB_CHILD_PASS="+strconv.Itoa(pass))
 		done := make(chan error, 1)
 		var msg []byte
 		go func() {
@@ -942,19 +961,28 @@ func TestVerifXkbRun(t *testing.T) {
 		t.Fatal(err)
 	}
 	w := bufio.NewWriter(cf)
-	enc := json.NewEncoder(w)
+	offsets := make([]int64, 0, len(cases)+1)
+	var pos int64
 	for _, c := range cases {
-		enc.Encode(c)
+		line, err := json.Marshal(c)
+		if err != nil {
+			t.Fatal(err)
+		}
+		offsets = append(offsets, pos)
+		w.Write(line)
+		w.WriteByte('\n')
+		pos += int64(len(line)) + 1
 	}
+	offsets = append(offsets, pos)
 	w.Flush()
 	cf.Close()
 	defer os.Remove(cp)
 
 	runs, children := xkbEnvInt("XKB_RUNS", 2), xkbEnvInt("XKB_CHILDREN", 1)
 	var passes [][][]map[string]interface{}
-	passes = append(passes, xkbPass(t, work, cp, cases, 0, runs))
+	passes = append(passes, xkbPass(t, work, cp, offsets, cases, 0, runs))
 	for c := 1; c <= children; c++ {
-		passes = append(passes, xkbPass(t, work, cp, cases, c, 1))
+		passes = append(passes, xkbPass(t, work, cp, offsets, cases, c, 1))
 	}
 	out, err := os.Create(os.Getenv("XKB_TRACE"))
 	if err != nil {
